@@ -112,6 +112,9 @@ theories/V2/Shift.vos theories/V2/Shift.vok theories/V2/Shift.required_vos: theo
 theories/V2/NormProof.vo theories/V2/NormProof.glob theories/V2/NormProof.v.beautified theories/V2/NormProof.required_vo: theories/V2/NormProof.v theories/Base/Utf8.vo theories/V2/Tok.vo theories/V2/TokSim.vo theories/V2/TokInv.vo theories/V2/Normalize.vo theories/V2/TokWF.vo
 theories/V2/NormProof.vio: theories/V2/NormProof.v theories/Base/Utf8.vio theories/V2/Tok.vio theories/V2/TokSim.vio theories/V2/TokInv.vio theories/V2/Normalize.vio theories/V2/TokWF.vio
 theories/V2/NormProof.vos theories/V2/NormProof.vok theories/V2/NormProof.required_vos: theories/V2/NormProof.v theories/Base/Utf8.vos theories/V2/Tok.vos theories/V2/TokSim.vos theories/V2/TokInv.vos theories/V2/Normalize.vos theories/V2/TokWF.vos
+theories/V2/NormTables.vo theories/V2/NormTables.glob theories/V2/NormTables.v.beautified theories/V2/NormTables.required_vo: theories/V2/NormTables.v theories/Base/Utf8.vo theories/V2/Tok.vo theories/V2/TokSim.vo theories/V2/TokInv.vo theories/V2/Normalize.vo theories/V2/TokTables.vo theories/V2/NormProof.vo
+theories/V2/NormTables.vio: theories/V2/NormTables.v theories/Base/Utf8.vio theories/V2/Tok.vio theories/V2/TokSim.vio theories/V2/TokInv.vio theories/V2/Normalize.vio theories/V2/TokTables.vio theories/V2/NormProof.vio
+theories/V2/NormTables.vos theories/V2/NormTables.vok theories/V2/NormTables.required_vos: theories/V2/NormTables.v theories/Base/Utf8.vos theories/V2/Tok.vos theories/V2/TokSim.vos theories/V2/TokInv.vos theories/V2/Normalize.vos theories/V2/TokTables.vos theories/V2/NormProof.vos
 theories/Props/C20.vo theories/Props/C20.glob theories/Props/C20.v.beautified theories/Props/C20.required_vo: theories/Props/C20.v theories/Cont/SetImpl.vo theories/Cont/SetRefine.vo theories/Cont/Heap.vo theories/Cont/HeapInv.vo
 theories/Props/C20.vio: theories/Props/C20.v theories/Cont/SetImpl.vio theories/Cont/SetRefine.vio theories/Cont/Heap.vio theories/Cont/HeapInv.vio
 theories/Props/C20.vos theories/Props/C20.vok theories/Props/C20.required_vos: theories/Props/C20.v theories/Cont/SetImpl.vos theories/Cont/SetRefine.vos theories/Cont/Heap.vos theories/Cont/HeapInv.vos
@@ -139,9 +142,9 @@ theories/Props/C01.vos theories/Props/C01.vok theories/Props/C01.required_vos: t
 theories/Props/C07.vo theories/Props/C07.glob theories/Props/C07.v.beautified theories/Props/C07.required_vo: theories/Props/C07.v theories/Base/Float64.vo theories/V2/SSet.vo theories/V2/Match.vo theories/V2/Planted.vo theories/V2/MatchWF.vo theories/V2/Shift.vo
 theories/Props/C07.vio: theories/Props/C07.v theories/Base/Float64.vio theories/V2/SSet.vio theories/V2/Match.vio theories/V2/Planted.vio theories/V2/MatchWF.vio theories/V2/Shift.vio
 theories/Props/C07.vos theories/Props/C07.vok theories/Props/C07.required_vos: theories/Props/C07.v theories/Base/Float64.vos theories/V2/SSet.vos theories/V2/Match.vos theories/V2/Planted.vos theories/V2/MatchWF.vos theories/V2/Shift.vos
-theories/Props/C11.vo theories/Props/C11.glob theories/Props/C11.v.beautified theories/Props/C11.required_vo: theories/Props/C11.v theories/Base/Utf8.vo theories/V2/Tok.vo theories/V2/TokInv.vo theories/V2/Normalize.vo theories/V2/NormProof.vo
-theories/Props/C11.vio: theories/Props/C11.v theories/Base/Utf8.vio theories/V2/Tok.vio theories/V2/TokInv.vio theories/V2/Normalize.vio theories/V2/NormProof.vio
-theories/Props/C11.vos theories/Props/C11.vok theories/Props/C11.required_vos: theories/Props/C11.v theories/Base/Utf8.vos theories/V2/Tok.vos theories/V2/TokInv.vos theories/V2/Normalize.vos theories/V2/NormProof.vos
+theories/Props/C11.vo theories/Props/C11.glob theories/Props/C11.v.beautified theories/Props/C11.required_vo: theories/Props/C11.v theories/Base/Utf8.vo theories/V2/Tok.vo theories/V2/TokTables.vo theories/V2/TokInv.vo theories/V2/Normalize.vo theories/V2/NormProof.vo theories/V2/NormTables.vo
+theories/Props/C11.vio: theories/Props/C11.v theories/Base/Utf8.vio theories/V2/Tok.vio theories/V2/TokTables.vio theories/V2/TokInv.vio theories/V2/Normalize.vio theories/V2/NormProof.vio theories/V2/NormTables.vio
+theories/Props/C11.vos theories/Props/C11.vok theories/Props/C11.required_vos: theories/Props/C11.v theories/Base/Utf8.vos theories/V2/Tok.vos theories/V2/TokTables.vos theories/V2/TokInv.vos theories/V2/Normalize.vos theories/V2/NormProof.vos theories/V2/NormTables.vos
 theories/Props/C13.vo theories/Props/C13.glob theories/Props/C13.v.beautified theories/Props/C13.required_vo: theories/Props/C13.v theories/Base/Utf8.vo theories/V1/Tok1.vo theories/V1/Matcher1.vo theories/V1/Tok1Proof.vo theories/V1/Matcher1Proof.vo
 theories/Props/C13.vio: theories/Props/C13.v theories/Base/Utf8.vio theories/V1/Tok1.vio theories/V1/Matcher1.vio theories/V1/Tok1Proof.vio theories/V1/Matcher1Proof.vio
 theories/Props/C13.vos theories/Props/C13.vok theories/Props/C13.required_vos: theories/Props/C13.v theories/Base/Utf8.vos theories/V1/Tok1.vos theories/V1/Matcher1.vos theories/V1/Tok1Proof.vos theories/V1/Matcher1Proof.vos
